@@ -467,7 +467,8 @@ PLANS["C17"] = dict(
     title="Closing a server ends all its clients; departed clients leave nothing behind (partial: tracking and close discipline)",
     contracts=ALL_CONTRACTS, specs=ALL_SPECS, table="module",
     targets=[SRV + n for n in ("Server.close", "ThreadPoolServer._drop_connection", "ThreadPoolServer.close",
-                               "Server._authenticate_and_serve_client", "OneShotServer._accept_method")],
+                               "Server._authenticate_and_serve_client", "OneShotServer._accept_method",
+                               "ThreadPoolServer._accept_method")],
     lemmas=[], compositions=[], native_focus=[], design_ref="DESIGN.md section 4, C17",
     assumptions=COMMON_ASSUMPTIONS + [
         "PARTIAL, sequential: VERIFIED - Server.close is idempotent; the first call marks the server closed and inactive, attempts "
@@ -477,7 +478,10 @@ PLANS["C17"] = dict(
         "and closes exactly that connection; Server._authenticate_and_serve_client, on every exit for which an Exception (or "
         "nothing) is raised - authentication refused, authentication raising, serving raising, normal end - attempts to shut the "
         "client's socket down and removes exactly that socket from self.clients, serving at most once and only after successful "
-        "authentication; OneShotServer._accept_method serves one client and then closes the server on every exit",
+        "authentication; OneShotServer._accept_method serves one client and then closes the server on every exit; "
+        "ThreadPoolServer._accept_method: once the pool owns the connection, the socket accept() tracked is tracked no longer, whatever "
+        "socket object the authenticator handed back (when building the connection FAILS the socket is closed but stays in the "
+        "tracking set until the next successful accept: noted, not claimed)",
         "ASSUMED interface contract: Server._serve_client (builds and serves the connection; its teardown is C11); the registrar's "
         "unregister and the logger are dynamic objects",
         "threads, queues, poll objects, sockets and the authenticator are dynamic objects: each method call is a pair of ghost "
